@@ -72,7 +72,7 @@ Step ==
            s == Snap(e.s)
            bad == Bad(e, w, s)
        IN  /\ IF bad = {} THEN TRUE
-              ELSE PrintT(ToJson([run |-> Log[h].id, line |-> i + 1, ev |-> e.ev, m |-> e.m, bad |-> bad]))
+              ELSE PrintT(ToJson([run |-> Log[h].id, line |-> i + 1, ev |-> e.ev, m |-> e.m, bad |-> bad, w |-> e.w, s |-> e.s]))
            /\ wst' = w /\ sst' = s
            /\ startAsked' = IF e.ev = "istart" THEN [startAsked EXCEPT ![e.m] = TRUE] ELSE startAsked
            /\ stopAsked'  = IF e.ev = "istop" THEN [stopAsked EXCEPT ![e.m] = TRUE] ELSE stopAsked
